@@ -785,6 +785,11 @@ impl<F: FileSystem + Sync> Server<F> {
                     flags2: (enabled_flags >> 32) as u32,
                     ..Default::default()
                 };
+                #[cfg(target_os = "linux")]
+                if out.flags2 != 0 {
+                    // The kernel only honours `flags2` when FUSE_INIT_EXT is set in `flags`.
+                    out.flags |= FsOptions::INIT_EXT.bits() as u32;
+                }
                 if enabled.contains(FsOptions::BIG_WRITES) {
                     out.max_write = MAX_REQ_PAGES as u32 * pagesize() as u32;
                 }
